@@ -1,6 +1,7 @@
 package main
 
 import (
+	"io"
 	"bytes"
 	"fmt"
 	"math/big"
@@ -14,6 +15,7 @@ import (
 	"github.com/datastax/go-cassandra-native-protocol/datacodec"
 	"github.com/datastax/go-cassandra-native-protocol/datatype"
 	"github.com/datastax/go-cassandra-native-protocol/frame"
+	"github.com/datastax/go-cassandra-native-protocol/message"
 	"github.com/datastax/go-cassandra-native-protocol/primitive"
 	"github.com/datastax/go-cassandra-native-protocol/segment"
 
@@ -230,6 +232,30 @@ func runC18(res *lp.Result) {
 					jobs[g] = append(jobs[g], compressJob("snappy", snappy.Compressor{}, bytes.Repeat(r.Bytes(5), r.Intn(3000))))
 				}
 			}
+		}
+	}
+	// calls that FAIL are calls too: headers with versions the library does not support (a different one per goroutine), decoded and
+	// encoded through the shared frame codecs — each call must report ITS version, not another goroutine's
+	for g := 0; g < goroutines; g++ {
+		for k := 0; k < perG/6+1; k++ {
+			vb := byte(0x10 + (g*7+k)%40) // 0x10 … 0x37: none of them supported
+			fc := frameCodecs[(g+k)%len(frameCodecs)]
+			in := []byte{vb, 0, 0, 1, 5, 0, 0, 0, 0}
+			jobs[g] = append(jobs[g], c18Job{descr: fmt.Sprintf("header-error %s version byte 0x%02x", fc.name, vb), run: func() string {
+				_, err := fc.codec.DecodeHeader(bytes.NewReader(in))
+				if err == nil {
+					return "accepted"
+				}
+				runtime.Gosched()
+				e1 := err.Error()
+				f := frame.NewFrame(primitive.ProtocolVersion(vb&0x7f), 1, &message.Options{})
+				err2 := fc.codec.EncodeFrame(f, io.Discard)
+				runtime.Gosched()
+				if err2 == nil {
+					return "decode: " + e1 + " | encode accepted"
+				}
+				return "decode: " + e1 + " | encode: " + err2.Error() + " | decode again: " + err.Error()
+			}})
 		}
 	}
 	// sequential reference
